@@ -16,7 +16,7 @@ Classes == {"scalar", "str", "string", "slice", "strslice", "struct", "generic"}
 OptSpellings == {"", "std::option::", "core::option::", "::std::option::", "::core::option::"}
 PC == [cls : Classes, ren : BOOLEAN, none : {FALSE}, sp : {""}] \cup [cls : OptClasses, ren : BOOLEAN, none : BOOLEAN, sp : OptSpellings]
 PNames == <<"a", "name", "type_", "x2">>
-PRen == <<"wireName", "type", "kebab-name", "X">>
+PRen == <<"wireName", "class", "kebab-name", "X">>   \* (no rename may coincide with the wire name of a raw identifier of the pool)
 \* Rust parameter names: ordinary ones, and every value identifier the generated body itself uses or could use
 \* (a parameter so named must still travel under its own name with its own value)
 PNamePool == {"a", "name", "type_", "x2", "id", "method", "parameters", "params", "call", "method_call", "stream",
@@ -53,7 +53,9 @@ Named == {[iface |-> "org.example.px", words |-> <<"do", "it">>, rename |-> "", 
 \* no arguments at all: every kind of method, both outputs
 NoArgs == {[iface |-> "org.example.px", words |-> <<"list", "all">>, rename |-> rn, kind |-> k, lt |-> "elided",
             params |-> <<>>, out |-> IF k = "oneway" THEN "unit" ELSE o] : k \in Kinds, o \in {"unit", "struct"}, rn \in {"", "Renamed"}}
-Picked == Singles \cup Named \cup NoArgs \cup {RandomDecl(i) : i \in 1..NDecl}
+\* (only declarations whose parameters have pairwise different wire names are declarations at all)
+WellFormed(x) == Cardinality({WireName(x.params[i]) : i \in 1..Len(x.params)}) = Len(x.params)
+Picked == {x \in Singles \cup Named \cup NoArgs \cup {RandomDecl(i) : i \in 1..NDecl} : WellFormed(x)}
 
 \* Varlink member names: [A-Z][A-Za-z0-9]*
 DigitS == "0123456789"
